@@ -123,6 +123,27 @@ class Driver(object):
         gcfgs = []
         for g, gc in enumerate(self.script['groups']):
             gcfgs.append(ProcessGroupConfig(opts, 'g%d' % g, gc['priority'], [self.pcfgs[i] for i in gc['procs']]))
+        # optional event-listener pools (outside the Coq lifecycle model: monitor-judged scripts only)
+        self.listener_pids = {}
+        from supervisor.options import EventListenerConfig, EventListenerPoolConfig
+        from supervisor.dispatchers import default_handler
+        self.lcfgs = []
+        for k, pool in enumerate(self.script.get('pools', [])):
+            lp = []
+            for j in range(pool.get('procs', 1)):
+                lc = EventListenerConfig(
+                    opts, name='l%d_%d' % (k, j), uid=None, command='/sim/ok', directory=None, umask=None,
+                    priority=999, autostart=True, autorestart=AR[2], startsecs=0, startretries=3,
+                    stdout_logfile=None, stdout_capture_maxbytes=0, stdout_events_enabled=False, stdout_syslog=False,
+                    stdout_logfile_backups=0, stdout_logfile_maxbytes=0,
+                    stderr_logfile=None, stderr_capture_maxbytes=0, stderr_logfile_backups=0, stderr_logfile_maxbytes=0,
+                    stderr_events_enabled=False, stderr_syslog=False,
+                    stopsignal=15, stopwaitsecs=1, stopasgroup=False, killasgroup=False, exitcodes=[0], redirect_stderr=False)
+                lp.append(lc)
+                self.lcfgs.append(lc)
+            evs = [getattr(events.EventTypes, n) for n in pool.get('events', ['EVENT'])]
+            gcfgs.append(EventListenerPoolConfig(opts, 'pool%d' % k, pool.get('priority', 1), lp, pool.get('buffer', 10), evs,
+                                                 default_handler))
         opts.process_group_configs = gcfgs
         self.sup = Supervisor(opts)
         events.clear()
@@ -130,9 +151,9 @@ class Driver(object):
         events.subscribe(events.ProcessStateEvent, self._on_pstate)
         events.subscribe(events.SupervisorStateChangeEvent, self._on_sstate)
         for g, cfg in enumerate(gcfgs):
-            if self.script['groups'][g].get('initial', 1):
+            if g >= len(self.script['groups']) or self.script['groups'][g].get('initial', 1):
                 self.sup.add_process_group(cfg)
-        self.procs = [None] * len(self.pcfgs)
+        self.procs = [None] * (len(self.pcfgs) + len(self.lcfgs))
         self._bind_procs()
         self.kernel.fork_owner = self._fork_owner
         self.rpc = rpcinterface.SupervisorNamespaceRPCInterface(self.sup)
@@ -142,6 +163,12 @@ class Driver(object):
             g = self.script['procs'][i]['group']
             grp = self.sup.process_groups.get('g%d' % g)
             self.procs[i] = grp.processes['p%d' % i] if grp is not None else None
+        # listener processes follow the ordinary ones: index len(pcfgs)+n (scripts with pools are monitor-judged only)
+        n = len(self.pcfgs)
+        for lc in self.lcfgs:
+            grp = self.sup.process_groups.get(lc.name.split('_')[0].replace('l', 'pool'))
+            self.procs[n] = grp.processes[lc.name] if grp is not None else None
+            n += 1
 
     # ---------------------------------------------------------- observers
     def _owner_from_stack(self):
@@ -220,8 +247,34 @@ class Driver(object):
         for a in op['acts']:
             self.do_act(a)
         k.trace.append(('endacts', self.opi - 1))              # harness marker: what follows comes from the loop itself
+        self._listeners(op)
         for h in self.hooks:
             h(self, op)
+
+    def _listeners(self, op):
+        """Simulated event listeners: every live child of a listener process announces READY once and answers each
+        envelope it finds on its stdin with RESULT 2\\nOK + READY (or what op['listener_reply'] says)."""
+        if not self.lcfgs:
+            return
+        k = self.kernel
+        for name, grp in self.sup.process_groups.items():
+            if not name.startswith('pool'):
+                continue
+            for proc in grp.processes.values():
+                pid = proc.pid
+                if not pid or pid not in k.live or pid not in k.children_fds:
+                    continue
+                pipes = k.children_fds[pid]          # [(stdin pipe,'r'), (stdout pipe,'w'), (stderr pipe,'w')]
+                if len(pipes) < 2:
+                    continue
+                stdin_p, stdout_p = pipes[0][0], pipes[1][0]
+                if pid not in self.listener_pids:
+                    self.listener_pids[pid] = True
+                    stdout_p.buf += b'READY\n'
+                if stdin_p.buf:
+                    if not op.get('listener_deaf'):
+                        stdin_p.buf = b''
+                    stdout_p.buf += bytes(op.get('listener_reply', list(b'RESULT 2\nOKREADY\n')))
 
     def _answer(self, req, res):
         # res: ('value', v) | ('fault', code)
@@ -296,7 +349,7 @@ class Driver(object):
             req, what = a[1], a[2]
             k.trace.append(('req', req, what, a[3] if len(a) > 3 else -1, a[4] if len(a) > 4 else -1))   # marker
             r = self.rpc
-            name = lambda i: ('g%d:p%d' % (self.script['procs'][i]['group'], i)) if i < len(self.procs) else 'g0:nosuch'
+            name = lambda i: ('g%d:p%d' % (self.script['procs'][i]['group'], i)) if i < len(self.pcfgs) else 'g0:nosuch'
             gname = lambda g: ('g%d' % g) if g < len(self.script['groups']) else 'nosuchgroup'
             if what == 'start':
                 self._call(req, r.startProcess, name(a[3]), bool(a[4]))
